@@ -299,7 +299,8 @@ class Run:
         self.init_vals = dict(self.compiler.init_vals)
         self.stoch_objs = list(self.compiler.sids.objs)
         samples = all(v >= 0 for v in self.compiler.sample_values)
-        self.out.append("G " + " ".join(canon.b01(x) for x in guards(self.instance, self.init_state) + (samples,)))
+        g = guards(self.instance, self.init_state)
+        self.out.append("G " + " ".join(canon.b01(x) for x in g[:7] + (samples,) + g[7:]))
         self.out.append(f"L {env.lower_bound} {env.max_allowed_time}")
         self._emit_micro(micro)
         self.out += res_lines(env.state)
@@ -639,7 +640,15 @@ def guards(inst, st):
     from jobshoplab.types.instance_config_types import BufferRoleConfig as _BR
     out_ids = {b.id for b in inst.buffers if b.role == _BR.OUTPUT}
     placed = all(len(m.prebuffer.store) == 0 for m in st.machines) and all(j.location not in out_ids for j in st.jobs)
-    return wf, shape, cons, cap, rest, placed, nonneg
+
+    def dt(t):
+        return isinstance(t, DeterministicTimeConfig)
+    det = (all(dt(o.duration) for j in inst.instance.specification for o in j.operations)
+           and all(dt(v) for m in inst.machines for v in m.setup_times.values())
+           and all(dt(o.duration) and dt(o.frequency) for m in inst.machines for o in m.outages)
+           and all(dt(v) for v in inst.logistics.travel_times.values())
+           and all(dt(o.duration) and dt(o.frequency) for t in inst.transports for o in t.outages))
+    return wf, shape, cons, cap, rest, placed, nonneg, det
 
 
 def conflict_free(offers, rnd, p=0.7):
